@@ -125,20 +125,16 @@ theorem slice_pad (t : Tensor) (m : List Nat) (hle : ShapeLe t.shape m) (hwf : t
 
 /-! ### worlds -/
 
-/-- destination addressing is sound: `None`, or a member whose global rank equals its group rank. -/
-def DstOk (g : List Nat) : Option Nat → Prop
-  | none => True
-  | some d => RootOk g d
-
-instance (g : List Nat) (dst : Option Nat) : Decidable (DstOk g dst) := by
-  cases dst <;> unfold DstOk <;> exact inferInstance
+theorem envOf_recv (g : List Nat) (n : Nat) (dst : Option Nat) (junk : Nat → Q) (i : Nat) :
+    (envOf g n dst junk i).recv = receives dst i := by
+  cases dst <;> rfl
 
 theorem range_idx (n : Nat) : (List.range n).map id = List.range (List.range n).length := by simp
 
-theorem yields_simpleSend (g : List Nat) (n : Nat) (e : Nat → Env) (he : ∀ i, (e i).me = i)
-    (dst : Option Nat) (hd : DstOk g dst) (T : Nat → Tensor) (dt : DType) (sh : List Nat)
+theorem yields_simpleSend (g : List Nat) (n : Nat) (hg : IsGroup g n) (edst : Option Nat) (junk : Nat → Q)
+    (dst : Option Nat) (hd : DstIn n dst) (T : Nat → Tensor) (dt : DType) (sh : List Nat)
     (h : SameSig (List.range n) T dt sh) :
-    Yields g ((List.range n).map fun i => simpleSend (e i) dst (T i))
+    Yields g ((List.range n).map fun i => simpleSend (envOf g n edst junk i) dst (T i))
       ((List.range n).map fun i => gathered n dst T i) := by
   cases dst with
   | none =>
@@ -147,24 +143,21 @@ theorem yields_simpleSend (g : List Nat) (n : Nat) (e : Nat → Env) (he : ∀ i
     · exact exchange_allGather g (List.range n) T dt sh h
     · exact yields_done g (List.range n) _
   | some d =>
-    simp only [simpleSend, he]
+    have hdl : d < g.length := by rw [hg.len]; exact hd
+    obtain ⟨hget, hroot⟩ := rootOk_of_nodup g hg.nodup d hdl
+    simp only [simpleSend, toGlobal, envOf, hget]
     apply Yields.coll_map (H := fun i => if i == d then Resp.tensors ((List.range n).map T) else Resp.unit)
-    · exact exchange_gather g d hd (List.range n) id (range_idx n) T dt sh h
+    · exact exchange_gather g d g[d] hroot (List.range n) id (range_idx n) T dt sh h
     · rw [List.map_congr_left (g := fun i => Prog.done (gathered n (some d) T i))]
       · exact yields_done g (List.range n) _
       · intro i _
         cases hid : i == d <;> simp [gathered, receives, allOf, hid, recvTensors]
 
-/-- hypotheses on the tensors the members send: one dtype, one number of dimensions, well-formed. -/
-def Sendable (n : Nat) (T : Nat → Tensor) (dt : DType) (k : Nat) : Prop :=
-  ∀ i, i < n → (T i).dtype = dt ∧ (T i).shape.length = k ∧ (T i).WF
-
-theorem yields_sendTensors (g : List Nat) (n gws : Nat) (dst : Option Nat) (junk : Nat → Q)
-    (hd : DstOk g dst) (T : Nat → Tensor) (dt : DType) (k : Nat) (hT : Sendable n T dt k) :
-    Yields g ((List.range n).map fun i => sendTensors ⟨i, n, gws, dst, junk i⟩ (T i))
+theorem yields_sendTensors (g : List Nat) (n : Nat) (hg : IsGroup g n) (dst : Option Nat) (junk : Nat → Q)
+    (hd : DstIn n dst) (T : Nat → Tensor) (dt : DType) (k : Nat) (hT : Sendable n T dt k) :
+    Yields g ((List.range n).map fun i => sendTensors (envOf g n dst junk i) (T i))
       ((List.range n).map fun i => gathered n dst T i) := by
-  let e : Nat → Env := fun i => ⟨i, n, gws, dst, junk i⟩
-  have he : ∀ i, (e i).me = i := fun _ => rfl
+  let e : Nat → Env := envOf g n dst junk
   have hdst : ∀ i, (e i).dst = dst := fun _ => rfl
   show Yields g ((List.range n).map fun i => sendTensors (e i) (T i)) _
   by_cases hk : k = 0
@@ -174,7 +167,7 @@ theorem yields_sendTensors (g : List Nat) (n gws : Nat) (dst : Option Nat) (junk
       have := hT i (List.mem_range.mp hi)
       exact ⟨this.1, List.eq_nil_of_length_eq_zero (by rw [this.2.1, hk])⟩
     rw [List.map_congr_left (g := fun i => simpleSend (e i) dst (T i))]
-    · exact yields_simpleSend g n e he dst hd T dt [] hsh
+    · exact yields_simpleSend g n hg dst junk dst hd T dt [] hsh
     · intro i hi
       have := (hT i (List.mem_range.mp hi)).2.1
       simp [sendTensors, this, hk, hdst]
@@ -189,7 +182,7 @@ theorem yields_sendTensors (g : List Nat) (n gws : Nat) (dst : Option Nat) (junk
       intro i hi
       simp [shapeTensor, (hT i (List.mem_range.mp hi)).2.1]
     apply Yields.bind_map (G := fun i => gathered n none (fun j => shapeTensor (T j)) i)
-      (yields_simpleSend g n e he none trivial _ .i64 [k] hshape)
+      (yields_simpleSend g n hg dst junk none trivial _ .i64 [k] hshape)
     -- what every member now knows: all shapes
     let shapes := (List.range n).map fun j => (T j).shape
     have hshapes : ((List.range n).map fun j => shapeTensor (T j)).map shapeOf = shapes := by
@@ -207,7 +200,7 @@ theorem yields_sendTensors (g : List Nat) (n gws : Nat) (dst : Option Nat) (junk
         refine ⟨(hT i (List.mem_range.mp hi)).1, ?_⟩
         exact hall _ (List.mem_map.mpr ⟨i, hi, rfl⟩)
       simp only [heq, beq_self_eq_true, if_true]
-      exact yields_simpleSend g n e he dst hd T dt _ hsame
+      exact yields_simpleSend g n hg dst junk dst hd T dt _ hsame
     · -- uneven: pad, gather, trim
       have hne : (pmax shapes == pmin shapes) = false := by simpa using heq
       simp only [hne, Bool.false_eq_true, if_false]
@@ -215,7 +208,7 @@ theorem yields_sendTensors (g : List Nat) (n gws : Nat) (dst : Option Nat) (junk
         intro i hi
         exact ⟨(hT i (List.mem_range.mp hi)).1, rfl⟩
       apply Yields.bind_map (G := fun i => gathered n dst (fun j => (T j).pad (pmax shapes)) i)
-        (yields_simpleSend g n e he dst hd _ dt _ hpad)
+        (yields_simpleSend g n hg dst junk dst hd _ dt _ hpad)
       have htrim : List.zipWith Tensor.slice ((List.range n).map fun j => (T j).pad (pmax shapes)) shapes
           = (List.range n).map T := by
         simp only [shapes, List.zipWith_map_left, List.zipWith_map_right, List.zipWith_self]
